@@ -501,6 +501,33 @@ func (e zeroStringErr) Error() string { return "generated failure (empty string 
 
 func (e *failErr) Error() string { return fmt.Sprintf("generated failure f%d.%d", e.Func, e.Exec) }
 
+// sliceErr is an error type that is not comparable (validator-style list of
+// messages): `err1 == err2` on two of them panics, so a library that compares
+// error values would turn a converter failure into a panic.
+type sliceErr []string
+
+func (e sliceErr) Error() string { return "generated failure (list): " + strings.Join(e, "; ") }
+
+// errKey returns a comparable identity for an error value: the value itself
+// when its dynamic type is comparable, the backing array and length for a
+// slice-typed one.
+func errKey(err error) interface{} {
+	if err == nil {
+		return nil
+	}
+	if reflect.TypeOf(err).Comparable() {
+		return err
+	}
+	v := reflect.ValueOf(err)
+	if v.Kind() == reflect.Slice {
+		return [2]uintptr{v.Pointer(), uintptr(v.Len())}
+	}
+	return fmt.Sprintf("%T:%p", err, err)
+}
+
+// sameErr: a and b are the very same error value.
+func sameErr(a, b error) bool { return errKey(a) == errKey(b) }
+
 // World holds the monitoring state shared by all generated bodies.
 type World struct {
 	mu      sync.Mutex
@@ -509,7 +536,7 @@ type World struct {
 	events  []*Event
 	execs   map[int]int
 	specs   map[int]FuncSpec
-	errs    map[error]int // error values returned by bodies -> event seq
+	errs    map[interface{}]int // error values (by errKey) returned by bodies -> event seq
 	planned bool          // set while a Redefine is in progress (C09)
 	inPlan  []int         // events logged while planned (must stay empty)
 	t0      time.Time
@@ -560,7 +587,7 @@ var caseOneGen bool
 var traceLogger = hclog.New(&hclog.LoggerOptions{Level: hclog.Trace, Output: io.Discard})
 
 func NewWorld() *World {
-	w := &World{origin: map[int64]*Origin{}, execs: map[int]int{}, specs: map[int]FuncSpec{}, errs: map[error]int{}, t0: time.Now(), TraceLog: caseTrace}
+	w := &World{origin: map[int64]*Origin{}, execs: map[int]int{}, specs: map[int]FuncSpec{}, errs: map[interface{}]int{}, t0: time.Now(), TraceLog: caseTrace}
 	if caseShareName {
 		w.ShareName = "conv"
 	}
@@ -655,7 +682,7 @@ func (w *World) PlanEvents() int {
 func (w *World) IsBodyError(err error) bool {
 	w.mu.Lock()
 	defer w.mu.Unlock()
-	_, ok := w.errs[err]
+	_, ok := w.errs[errKey(err)]
 	return ok
 }
 
@@ -694,13 +721,16 @@ func (w *World) record(fi int, spec *FuncSpec, obs []ArgObs, concs []int, enterN
 			err = &multierror.Error{Errors: []error{fmt.Errorf("generated failure f%d.%d (only element of a list)", fi, ev.Exec)}}
 		case 6:
 			err = &multierror.Error{Errors: []error{fmt.Errorf("first of two"), fmt.Errorf("second of two")}}
+		case 7:
+			// an error value of a type that is not comparable
+			err = sliceErr{fmt.Sprintf("f%d.%d", fi, ev.Exec), "field x: required"}
 		}
 		if w.UnsatErrors {
 			// a body that uses argmapper itself and hands on the error of an
 			// inner call: the value is an *ErrArgumentUnsatisfied
 			err = innerUnsatError()
 		}
-		w.errs[err] = ev.Seq
+		w.errs[errKey(err)] = ev.Seq
 		ev.Err = err
 	}
 	w.events = append(w.events, ev)
